@@ -559,3 +559,60 @@ def component(tier='quick', seed=0, known=()):
 if __name__ == '__main__':
     from bounded.common import main
     main(component)
+
+
+def short_crc_component(tier='quick', seed=0, known=()):
+    """Armored exports whose CRC-24 has a ZERO LEADING OCTET - one export in 256 by chance, so a run over random material meets one only now
+    and then; here they are searched for deterministically (a counter in a user id / in the text until the checksum is below 0x010000) for
+    each kind of armorable object. The checksum line must be '=' + four radix-64 characters encoding the three CRC octets, and PGPy must
+    read its own armor back to the same octets."""
+    import base64
+    import pgpy
+    from pgpy.constants import PubKeyAlgorithm, EllipticCurveOID, KeyFlags, HashAlgorithm, SymmetricKeyAlgorithm, CompressionAlgorithm
+    from bounded.common import crc24, find_short_crc
+    warnings.simplefilter('ignore')
+    key = pgpy.PGPKey.new(PubKeyAlgorithm.EdDSA, EllipticCurveOID.Ed25519)
+    key.add_uid(pgpy.PGPUID.new('Short CRC'), usage={KeyFlags.Certify, KeyFlags.Sign}, hashes=[HashAlgorithm.SHA256], ciphers=[SymmetricKeyAlgorithm.AES256],
+                compression=[CompressionAlgorithm.Uncompressed])
+    pubblob, secblob = bytes(key.pubkey), bytes(key)
+
+    def with_uid(blob):
+        def make(n):
+            k = pgpy.PGPKey.from_blob(blob)[0]
+            k |= pgpy.PGPUID.new('checksum search %d' % n)
+            return k
+        return make
+    makers = {'public key': (with_uid(pubblob), pgpy.PGPKey), 'private key': (with_uid(secblob), pgpy.PGPKey),
+              'message': (lambda n: pgpy.PGPMessage.new('checksum search %d' % n), pgpy.PGPMessage),
+              'compressed message': (lambda n: pgpy.PGPMessage.new('checksum search %d' % n, compression=CompressionAlgorithm.ZIP), pgpy.PGPMessage),
+              'signature': (lambda n: key.sign('checksum search %d' % n), pgpy.PGPSignature)}
+    violations, cases, samples = [], 0, []
+    for kind, (make, cls) in makers.items():
+        o = find_short_crc(make)
+        if o is None:
+            violations.append({'case': {'kind': kind}, 'what': 'harness error: no export with a short checksum found within the search limit'})
+            continue
+        cases += 1
+        raw = bytes(o)
+        why = None
+        try:
+            text = str(o)
+            lines = [l for l in text.replace('\r\n', '\n').split('\n') if l]
+            ck = [l for l in lines if l.startswith('=')]
+            want = '=' + base64.b64encode(crc24(raw).to_bytes(3, 'big')).decode('ascii')
+            if ck != [want]:
+                why = 'checksum line %r, RFC 4880 6.1 wants %r (CRC-24 %06X of the %d payload octets)' % (ck, want, crc24(raw), len(raw))
+            else:
+                back = cls.from_blob(text)
+                back = back[0] if isinstance(back, tuple) else back
+                if bytes(back) != raw:
+                    why = 'reading the armor back yields other octets'
+        except Exception as ex:
+            why = 'writing / reading the armor raised %s: %s' % (type(ex).__name__, str(ex)[:60])
+        if len(samples) < 3:
+            samples.append({'kind': kind, 'crc24': '%06X' % crc24(raw), 'payload_octets': len(raw)})
+        if why:
+            violations.append({'case': {'kind': kind, 'crc24': '%06X' % crc24(raw), 'payload_octets': len(raw)}, 'what': why})
+    return {'name': 'C10/armored-exports-with-a-short-checksum', 'bound': 'one deterministically found export with CRC-24 < 0x010000 per kind of object (%s)' % ', '.join(makers),
+            'cases': cases, 'distinct_nontrivial': cases, 'rule': 'one case = one object whose checksum has a zero leading octet; all are non-trivial',
+            'exhaustive': True, 'samples': samples, 'violations': violations, 'known_hits': []}
